@@ -315,12 +315,16 @@ func run(c *core.Ctx) {
 		}
 	}
 
-	for i, n := range []int{3, 255, 256, 257, 65535, 65536, 65537} {
+	mcounts := []int{3, 255, 256, 257, 65536}
+	if th {
+		mcounts = append(mcounts, 65535, 65537)
+	}
+	for i, n := range mcounts {
 		if c.Mine(i) && !c.Expired() {
 			k.manyMaterials(n)
 		}
 	}
-	c.Bound("many_materials", "SplitOnUniqueMaterials on strips of 3, 255, 256, 257, 65535, 65536, 65537 triangles with a material each")
+	c.Bound("many_materials", fmt.Sprintf("SplitOnUniqueMaterials on strips of %v triangles with a material each", mcounts))
 
 	// (b) every operation × every variant × S_mesh
 	maxV := 3
